@@ -537,7 +537,13 @@ class POP3SubprocessInterface:
             while True:
                 if self.reader is None or self.reader.at_eof():
                     break
-                msg = await self.reader.readuntil(b"\r\n")
+                # NOTE: Relay whatever has arrived. Reading up to the next CRLF
+                #       fails with LimitOverrunError on a message line longer
+                #       than the stream's limit.
+                #
+                msg = await self.reader.read(65536)
+                if not msg:
+                    break
                 await self.pop3_client.push(msg)
         except (OSError, asyncio.IncompleteReadError, ConnectionResetError):
             pass
